@@ -30,7 +30,8 @@ from ..core import Ctx, MachineryError, chunks, load_known_findings
 
 BAD, CYCLIC = [0], [0, 0]
 IFACE = 99          # MRO.tla IFACE: the member as declared by the interface I
-INVARIANTS = ["MroIsC3", "InconsistentReported", "RefLaws", "FindIsLookup", "SourcesAreOverridden", "DocIsInherited",
+INVARIANTS = ["MroIsC3", "InconsistentReported", "RefLaws", "FindIsLookup", "InheritedTable", "OverridesNote",
+              "SourcesAreOverridden", "DocIsInherited",
               "EarlyIsLookupOrKF"]
 KF_EARLY = "early-lookup-depth-first"
 KF_LATE = "early-lookup-before-base-resolved"
@@ -67,7 +68,7 @@ def body_lines(tag: str, state: str, nested: bool = False) -> List[str]:
         return ["    class f:", {"nodoc": "        pass", "doc": f'        """doc of {tag}"""', "empty": '        ""'}[state]]
     if state == "nodoc":
         return ["    def f(self):", "        pass"]
-    if state == "doc":
+    if state in ("doc", "hidden"):        # hidden: documented like any other, made HIDDEN by the privacy rules
         return ["    def f(self):", f'        """doc of {tag}"""']
     if state == "empty":
         return ["    def f(self):", '        ""']
@@ -275,7 +276,7 @@ def render_segments(h: int, rec: Dict[str, Any], python: bool) -> Dict[str, Any]
 # ------------------------------------------------------------------------------ the real pydoctor on a batch
 def observe_batch(batch: List[Tuple[int, Dict[str, Any]]]) -> List[Dict[str, Any]]:
     """Build all cases of the batch in ONE System; return what the real code says per case."""
-    from pydoctor import model
+    from pydoctor import model, epydoc2stan
     from pydoctor.stanutils import flatten_text
     from pydoctor.templatewriter import util
     from pydoctor.templatewriter.pages import get_override_info
@@ -288,6 +289,13 @@ def observe_batch(batch: List[Tuple[int, Dict[str, Any]]]) -> List[Dict[str, Any
         def msg(self, section: str, msg: str, thresh: int = 0, topthresh: int = 100, nonl: bool = False,
                 wantsnl: bool = True, once: bool = False) -> None:
             self.captured.append((section, msg))
+
+        hidden_names: set = set()
+
+        def privacyClass(self, ob: Any) -> Any:       # what `--privacy=HIDDEN:<full name>` does, for thousands of names
+            if ob.fullName() in self.hidden_names:
+                return model.PrivacyClass.HIDDEN
+            return super().privacyClass(ob)
 
     shared = "b%d" % batch[0][0]
     shared_lines: List[str] = ["from zope.interface import Interface, implementer"]
@@ -310,6 +318,8 @@ def observe_batch(batch: List[Tuple[int, Dict[str, Any]]]) -> List[Dict[str, Any
                 where[c] = (mk, cn, ln)
         wheres.append(where)
     system = S()
+    system.hidden_names = {f"{where[c][0]}.{where[c][1]}.f" for (h, rec), where in zip(batch, wheres)
+                           for c in range(1, rec["n"] + 1) if rec["member"][c - 1] == "hidden"}
     builder = system.systemBuilder(system)
     if len(shared_lines) > 1:
         builder.addModuleString("\n".join(shared_lines) + "\n", modname=shared)
@@ -379,6 +389,19 @@ def observe_batch(batch: List[Tuple[int, Dict[str, Any]]]) -> List[Dict[str, Any
             o_inh.append([ix(chain[0]) for chain in util.nested_bases(cls)
                           if any(a.name == "f" for a in util.unmasked_attrs(chain))])
             o_first.append([b is not None for b in cls._initialbaseobjects])
+        # rendering history: the members' docstrings are rendered one after the other (ascending class order for even
+        # cases, descending for odd ones); what is rendered must not depend on what was rendered before
+        o_render = [0] * n
+        if rec.get("early", "none") != "nested":
+            for c in (range(1, n + 1) if h % 2 == 0 else range(n, 0, -1)):
+                own = objs[c].contents.get("f") if isinstance(objs[c], model.Class) else None
+                if own is None:
+                    continue
+                epydoc2stan.ensure_parsed_docstring(own)
+                pd = own.parsed_docstring
+                text = pd.to_node().astext().strip() if pd is not None and pd.has_body else ""
+                m_ = re.match(rf"^doc of (K|I){h}(?:_(\d+))?$", text)
+                o_render[c - 1] = 0 if not text else (-1 if not m_ else (IFACE if m_.group(1) == "I" else int(m_.group(2))))
         o_early = [0] * n
         for c in early_classes(rec):
             modname = where[c][0]
@@ -392,7 +415,7 @@ def observe_batch(batch: List[Tuple[int, Dict[str, Any]]]) -> List[Dict[str, Any
                 o_early[c - 1] = ix(bo[0].parent) if (len(bo) == 1 and bo[0] is not None) else -1
                 if o_early[c - 1] > 0 and [id(y) for y in x.mro()] != [id(x), id(bo[0])]:
                     o_early[c - 1] = -1
-        out.append({"h": h, "early": o_early, "mro": o_mro, "warn": o_warn, "find": o_find, "src": o_src, "doc": o_doc,
+        out.append({"h": h, "early": o_early, "render": o_render, "mro": o_mro, "warn": o_warn, "find": o_find, "src": o_src, "doc": o_doc,
                     "doctext": o_doctext, "inherited": o_inh, "overrides": o_ovr, "first": o_first, "present": o_present,
                     "where": {str(c): list(w) for c, w in where.items()}})
     return out
@@ -431,7 +454,7 @@ def cpython_case(rec: Dict[str, Any]) -> Dict[str, Any]:
         if st != "absent":
             def f(self):  # type: ignore[no-untyped-def]
                 pass
-            f.__doc__ = {"nodoc": None, "doc": f"doc of {c}", "empty": ""}[st]
+            f.__doc__ = {"nodoc": None, "doc": f"doc of {c}", "hidden": f"doc of {c}", "empty": ""}[st]
             f.owner = c  # type: ignore[attr-defined]
             ns["f"] = f
         try:
@@ -509,7 +532,7 @@ def evaluate_case(rec: Dict[str, Any], obs: Dict[str, Any]) -> Tuple[List[Tuple[
                 failed.append(("MroIsC3", c, "no 'mro' warning", obs["warn"][i]))
             if obs["find"][i] != rec["find_ref"][i]:
                 failed.append(("FindIsLookup", c, rec["find_ref"][i], obs["find"][i]))
-            want_inh = [rec["find_ref"][i]] if rec["find_ref"][i] else []
+            want_inh = rec["inh_ref"][i]
             if obs["inherited"][i] != want_inh:
                 failed.append(("InheritedTable", c, want_inh, obs["inherited"][i]))
             if c in early_classes(rec) and obs["early"][i] != rec["find_ref"][i]:
@@ -519,13 +542,15 @@ def evaluate_case(rec: Dict[str, Any], obs: Dict[str, Any]) -> Tuple[List[Tuple[
                 # an interface declaration is not on the MRO: it may only follow every definition along it
                 if [x for x in obs["src"][i] if x != IFACE] != rec["src_ref"][i] or IFACE in obs["src"][i][:-1]:
                     failed.append(("SourcesAreOverridden", c, rec["src_ref"][i], obs["src"][i]))
-                want_ov = rec["src_ref"][i][1] if len(rec["src_ref"][i]) > 1 else 0
+                want_ov = rec["ovr_ref"][i]
                 if obs["overrides"][i] != want_ov:
                     failed.append(("OverridesNote", c, want_ov, obs["overrides"][i]))
                 # ... and may only document the member when nothing along the MRO does
                 if obs["doc"][i] != rec["doc_ref"][i] and not (rec["doc_ref"][i] == 0 and obs["doc"][i] == IFACE):
                     failed.append(("DocIsInherited", c, rec["doc_ref"][i], obs["doc"][i]))
-                elif rec["doc_ref"][i]:
+                if obs["render"][i] != rec["doc_ref"][i] and not (rec["doc_ref"][i] == 0 and obs["render"][i] == IFACE):
+                    failed.append(("RenderedDocIsInherited", c, rec["doc_ref"][i], obs["render"][i]))
+                if obs["doc"][i] == rec["doc_ref"][i] and rec["doc_ref"][i]:
                     want_text = f"doc of K{obs['h']}_{rec['doc_ref'][i]}"
                     if obs["doctext"][i] != want_text:
                         failed.append(("DocIsInherited", c, want_text, obs["doctext"][i]))
@@ -545,6 +570,12 @@ def evaluate_case(rec: Dict[str, Any], obs: Dict[str, Any]) -> Tuple[List[Tuple[
             drift.append(("docsources", c, rec["src_pd"][i], obs["src"][i]))
         if not nested and obs["doc"][i] != rec["doc_pd"][i]:
             drift.append(("get_docstring", c, rec["doc_pd"][i], obs["doc"][i]))
+        if not nested and obs["render"][i] != rec["doc_pd"][i]:
+            drift.append(("rendered_docstring", c, rec["doc_pd"][i], obs["render"][i]))
+        if obs["inherited"][i] != rec["inh_pd"][i]:
+            drift.append(("inherited_table", c, rec["inh_pd"][i], obs["inherited"][i]))
+        if not nested and obs["overrides"][i] != rec["ovr_pd"][i]:
+            drift.append(("overrides_note", c, rec["ovr_pd"][i], obs["overrides"][i]))
         if c in early_classes(rec) and obs["early"][i] != (rec["early_base_pd" if nested else "early_pd"][i] or -1):
             drift.append(("early_lookup", c, rec["early_pd"][i], obs["early"][i]))
         want_first = [rec["born"][b - 1] < rec["born"][i] for b in rec["bases"][i]]
@@ -560,9 +591,9 @@ def judge_case(ctx: Ctx, rec: Dict[str, Any], obs: Dict[str, Any], origin: str) 
         ctx.violation({"invariant": inv, "origin": origin,
                        "failed": [{"invariant": a, "class": b, "expected": e, "observed": o} for a, b, e, o in failed],
                        "case": {k: rec[k] for k in ("n", "bases", "member", "born", "early", "lay") if k in rec} | {"layout": rec.get("layout"), "h": obs["h"]},
-                       "reference": {"c3": rec["c3"], "own": rec["own"], "find_ref": rec["find_ref"],
+                       "reference": {"c3": rec["c3"], "own": rec["own"], "find_ref": rec["find_ref"], "inh_ref": rec["inh_ref"], "ovr_ref": rec["ovr_ref"],
                                      "src_ref": rec["src_ref"], "doc_ref": rec["doc_ref"]},
-                       "observed": {k: obs[k] for k in ("mro", "warn", "find", "src", "doc", "inherited", "overrides", "early")},
+                       "observed": {k: obs[k] for k in ("mro", "warn", "find", "src", "doc", "inherited", "overrides", "early", "render")},
                        "model": {"early_pd": rec.get("early_pd"), "early_base_pd": rec.get("early_base_pd"), "late": rec.get("late")},
                        "key": f"{origin}:{sorted(set(a for a, _, _, _ in failed))}:{rec['bases']}:{rec['member'] if origin != 'enum' else ''}"[:300]})
     if drift and (not failed or any(d[0] == "early_lookup" for d in drift)):
@@ -717,6 +748,10 @@ def run(ctx: Ctx) -> int:
                threading.Thread(target=tlc_cases, args=(ctx, "late", 3, ["absent", "doc"], results),
                                 kwargs={"workers": 2, "key": "late2", "late_backs": "two",
                                         "late_orders": "two" if ctx.quick else "all"})]
+    # members excluded from the documentation by the privacy rules (state "hidden") in the member-attribution model
+    threads.append(threading.Thread(target=tlc_cases, args=(ctx, "members", 3 if ctx.quick else 4,
+                                                            ["absent", "nodoc", "doc", "hidden"] if ctx.quick else ["absent", "doc", "hidden"], results),
+                                    kwargs={"workers": 1, "key": "hidden"}))
     # @implementer classes in the docstring-inheritance universe; the last of 5 classes post-processed before its bases
     threads.append(threading.Thread(target=tlc_cases, args=(ctx, "zope", 3, docstates, results), kwargs={"workers": 1}))
     threads.append(threading.Thread(target=tlc_cases, args=(ctx, "split", 5, docstates, results),
@@ -754,6 +789,9 @@ def run(ctx: Ctx) -> int:
         late += late4
     for g in late:
         g["layout"] = {"kind": "late"}
+    hidden = sorted(results["hidden"].printed, key=sort_key)
+    if len(hidden) != (10 * 4 ** 3 if ctx.quick else 160 * 3 ** 4):
+        raise MachineryError(f"TLC emitted {len(hidden)} hidden-member cases")
     zope = sorted(results["zope"].printed, key=lambda r: json.dumps([r["bases"], r["member"], sorted(r["lay"]["impl"])]))
     split = sorted(results["split"].printed, key=lambda r: json.dumps([r["bases"], r["lay"]["split"]]))
     for g in split:
@@ -807,14 +845,14 @@ def run(ctx: Ctx) -> int:
     m_nested = [dict(r, early="nested") for r in pick4(members, 2)]
     l_alias = [dict(r, early="alias") for r in pick(late, 0)]
     l_nested = [dict(r, early="nested") for r in pick(late, 1)]
-    all_cases = enum + members + graph + file_cases + file_graphs + m_alias + m_nested + l_alias + l_nested + zope + split
+    all_cases = enum + members + graph + file_cases + file_graphs + m_alias + m_nested + l_alias + l_nested + zope + split + hidden
     origins = (["enum"] * len(enum) + ["members"] * len(members) + ["graph"] * len(graph)
                + ["modules"] * len(file_cases) + ["graph-random"] * len(file_graphs)
                + ["members-alias"] * len(m_alias) + ["members-nested"] * len(m_nested)
                + ["late-alias"] * len(l_alias) + ["late-nested"] * len(l_nested)
-               + ["zope"] * len(zope) + ["split"] * len(split))
+               + ["zope"] * len(zope) + ["split"] * len(split) + ["hidden"] * len(hidden))
     # ---- the spec's reference against CPython (machinery)
-    quirk = cross_check_cpython(ctx, enum + members + file_cases + late + zope + split)
+    quirk = cross_check_cpython(ctx, enum + members + file_cases + late + zope + split + hidden)
     ctx.extra["cpython_type_cross_checked_cases"] = len(enum) + len(members) + len(file_cases) + len(late) + len(zope) + len(split)
     ctx.extra["inspect_getdoc_differs_from_mro_lookup"] = quirk
     if file_cases:
@@ -906,7 +944,8 @@ def replay(ctx: Ctx, path: str) -> int:
     rec = {"n": case["n"], "bases": case["bases"], "member": case["member"], "born": case["born"], **w["reference"],
            # model fields are irrelevant for the verdict
            "mro": w["observed"]["mro"], "warn": w["observed"]["warn"], "find_pd": w["observed"]["find"],
-           "src_pd": w["observed"]["src"], "doc_pd": w["observed"]["doc"], "early_pd": w["observed"].get("early", [])}
+           "src_pd": w["observed"]["src"], "doc_pd": w["observed"]["doc"], "inh_pd": w["observed"]["inherited"],
+           "ovr_pd": w["observed"]["overrides"], "early_pd": w["observed"].get("early", [])}
     if case.get("early"):
         rec["early"] = case["early"]
     if case.get("lay"):
